@@ -1036,6 +1036,11 @@ func DecodeCashAddress(str string) (string, []byte, error) {
 		values[i] = byte(CharsetRev[c])
 	}
 
+	// The payload must at least hold the 8 checksum values.
+	if len(values) < 8 {
+		return "", nil, errors.New("address is too short")
+	}
+
 	// Verify the checksum.
 	if !verifyChecksum(prefix, values) {
 		return "", nil, ErrChecksumMismatch
